@@ -1230,6 +1230,12 @@ val holds_C06 : vt -> func -> vt -> bool
 
 val holds_C07 : vt -> func -> vt -> bool
 
+val sgr_op_eqb : sgr_op -> sgr_op -> bool
+
+val sgr_decode_ok : sgr_op list -> parser0 -> bool
+
+val holds_C03_sgr : func -> vt -> bool
+
 val holds_C08 : vt -> func -> vt -> bool
 
 val holds_C13 : vt -> bool
